@@ -52,7 +52,7 @@ def cases(draw: Any, tier: str) -> dict:
             frm = d.weighted([("F", 50), ("child", 25), ("task", 25)])
             op: dict[str, Any] = {"op": "spawn", "tid": ntid, "via": d.pick(["start", "soon"]), "from": frm, "outcome": outcome,
                                   "d": d.int(1, 4), "status": False, "name": d.pick([None, "named"]),
-                                  "cleanup": d.weighted([(0, 50), (1, 30), (2, 20)])}
+                                  "cleanup": d.weighted([(0, 50), (1, 30), (2, 20)]), "shape": d.weighted([("function", 80), ("object", 20)])}
             if frm == "task":
                 op["via"] = "soon"
             if op["via"] == "start" and d.pct(40):
@@ -213,6 +213,12 @@ class Interp:
                 task_status.started(("value", tid))
                 await body()
             return fn
+
+        if op.get("shape") == "object":
+            class _Job:  # a callable object is a legitimate task function too
+                async def __call__(self) -> None:
+                    await body()
+            return _Job()
 
         async def fn2() -> None:
             await body()
